@@ -1076,6 +1076,11 @@ class DriverLubaRs232(DriverSerialBase):
         try:
             # Make sure the received command buffer is empty, so that an
             # unexpected response can't accidentally be used
+            if msg.devicetype != 0 and not in_transaction:
+                # 'run_sequence()' emits this itself, inside its transaction
+                await self._protocol.send_dali_command(
+                    gear.general.EnableDeviceType(msg.devicetype)
+                )
             self._protocol.reset_dali_response()
             await self._protocol.send_dali_command(msg)
             if msg.is_query:
@@ -1667,6 +1672,11 @@ class DriverSCIRS232(DriverSerialBase):
         try:
             # Make sure the received command buffer is empty, so that an
             # unexpected response can't accidentally be used
+            if msg.devicetype != 0 and not in_transaction:
+                # 'run_sequence()' emits this itself, inside its transaction
+                await self._protocol.send_dali_command(
+                    gear.general.EnableDeviceType(msg.devicetype)
+                )
             self._protocol.reset_dali_response()
             await self._protocol.send_dali_command(msg)
             if msg.is_query:
